@@ -20,7 +20,9 @@ import (
 )
 
 // memoryRaceFlags: mix --replace / --history-max into the free-running ops on memory storage too.
-const memoryRaceFlags = true
+// Off: with them the set of racing frame pairs of the (known) aliasing defect is not closed — e.g.
+// releasingUpgrade <-> driver.newRecord showed up once in 8 thorough seeds.
+const memoryRaceFlags = false
 
 // onStorage runs a race-mode goroutine body below a frame that names the kind of storage, so
 // that race reports can be told apart (Prop.RaceClassSuffix): the memory driver shares release
@@ -152,15 +154,10 @@ func runRaceOps(res *core.Result, d caseData, verbose bool) {
 		}
 		scen := fmt.Sprintf("free-running %d goroutines x %d ops from %s ledger", d.G, d.M, start)
 		nv := len(res.Violations)
-		// The log/ledger oracle is applied to plain installs/upgrades only: --replace and
-		// --history-max have schedule-dependent defects that the gate monitor reports with stable
-		// signatures; free-running repetitions with those flags serve race detection only.
+		// The log/ledger oracle is not applied to repetitions with --history-max: its
+		// prune-before-create defect is schedule dependent and is reported by the gate monitor with
+		// stable signatures; those free-running repetitions serve race detection only.
 		flagged := limit > 0
-		for _, o := range ops {
-			if o.op.Replace {
-				flagged = true
-			}
-		}
 		var j judged
 		if flagged {
 			res.Stat("race_ops_runs_race_detection_only", 1)
